@@ -23,6 +23,9 @@ pub const OP_LOAD: u8 = 0;
 pub const OP_STORE: u8 = 1;
 pub const OP_RMW: u8 = 2;
 pub const OP_CAS: u8 = 3;
+pub const OP_LOCK: u8 = 4;
+pub const OP_READ: u8 = 6;
+pub const OP_WRITE: u8 = 7;
 pub const OP_AFTER: u8 = 9;
 pub const OP_NAMES: [&str; 10] = ["load", "store", "rmw", "cas", "lock", "try_lock", "read", "write", "other", "(done)"];
 
@@ -96,6 +99,8 @@ struct St {
     switches: u64,
     window_preempts: u64,
     lock_waits: u64,
+    /// rounds of "everybody blocked, let the waiters retry" since the last real progress
+    stall_rounds: u32,
     cfg: E1Cfg,
     sched: Chan,
     last: Vec<(u8, usize)>,
@@ -309,10 +314,16 @@ impl Shared {
             }
             resume_unwind(Box::new(SimAbort));
         }
-        // progress by `me`: lock waiters may retry
-        for i in 0..st.status.len() {
-            if i != me && st.status[i] == Status::Blocked {
-                st.status[i] = Status::Ready;
+        // progress by `me`: lock waiters may retry.  An attempt to take a lock (the point before
+        // it, or the failed attempt itself) is not progress: two waiters would otherwise wake
+        // each other for ever while the holder, of lower priority, never runs.
+        let lock_attempt = op == OP_LOCK || op == OP_READ || op == OP_WRITE;
+        if !is_blocked && !lock_attempt {
+            st.stall_rounds = 0;
+            for i in 0..st.status.len() {
+                if i != me && st.status[i] == Status::Blocked {
+                    st.status[i] = Status::Ready;
+                }
             }
         }
         // invariants, with every thread parked
@@ -333,7 +344,23 @@ impl Shared {
             st.lock_waits += 1;
             st.status[me] = Status::Blocked;
         }
-        let next = match Self::pick(&mut st, me, !is_blocked) {
+        let mut next = Self::pick(&mut st, me, !is_blocked);
+        if next.is_none() && st.stall_rounds <= 2 * st.status.len() as u32 {
+            // nobody is runnable, but a release of a lock is not observable: let every waiter
+            // try once more; only rounds of retries without any progress in between are a deadlock
+            let mut any = false;
+            for i in 0..st.status.len() {
+                if i != me && st.status[i] == Status::Blocked {
+                    st.status[i] = Status::Ready;
+                    any = true;
+                }
+            }
+            if any {
+                st.stall_rounds += 1;
+                next = Self::pick(&mut st, me, false);
+            }
+        }
+        let next = match next {
             Some(n) => n,
             None => {
                 // everybody else is done or blocked and so am I
@@ -428,6 +455,7 @@ pub fn run_threads(sched: &Chan, cfg: &E1Cfg, bodies: Vec<Body>, inv: Option<Inv
             switches: 0,
             window_preempts: 0,
             lock_waits: 0,
+            stall_rounds: 0,
             cfg: cfg.clone(),
             sched: sched.clone(),
             last: vec![(8, 0); n],
